@@ -8,3 +8,44 @@ package armor
 //@ trusted
 //@ note armor.Decode is not verified here (bufio line reader, header map, base64 and CRC readers)
 //@ modifies heap
+
+// ---- C46 (part): the line breaker of armor.Encode ----
+// For the line length armor uses (64) the bytes handed to the underlying writer are the input with one '\n'
+// after every 64th byte and nowhere else inserted: with o = number of bytes accepted by the writer so far
+// (ghost stream of l.out) a '\n' sits at every position q with q mod 65 = 64, every input byte is
+// accounted for (o - o/65 data bytes written plus l.used buffered), and the newline that ends a full line
+// is written only when more data follows. Stated for writes that succeed; after a failed write of the
+// underlying writer nothing is claimed.
+//@ pred olen(l) = ghost(l.out, hlen)
+//@ pred lbinv(l) = l.lineLength == 64 && len(l.line) == 64 && 0 <= l.used && l.used < 64 && l.out != nil && olen(l) >= 0 && implies(!l.haveWritten, olen(l) == 0 ) && implies(l.haveWritten && l.used == 0, olen(l) % 65 == 64) && implies(l.haveWritten && l.used > 0, olen(l) % 65 == 0)
+//@ pred lbnl(l) = forall(q, 0, olen(l), implies(q % 65 == 64, ghost(l.out, hbuf)[q] == 10))
+//@ pred lbdata(l) = olen(l) - olen(l) / 65 + l.used
+
+//@ func (*lineBreaker).Write
+//@ props C46
+//@ nonnil l
+//@ requires lbinv(l) && lbnl(l) && ref(b) != ref(l.line)
+//@ modifies l.used
+//@ modifies l.haveWritten
+//@ modifies l.line[0:64]
+//@ modifies ghost(l.out, hlen)
+//@ modifies ghost(l.out, hbuf)
+//@ ensures implies(err == nil, n == len(b) && lbinv(l) && lbnl(l) && lbdata(l) == old(lbdata(l)) + len(b))
+//@ canary ensures err != nil
+
+//@ func (*lineBreaker).Close
+//@ props C46
+//@ nonnil l
+//@ requires lbinv(l) && lbnl(l)
+//@ modifies ghost(l.out, hlen)
+//@ modifies ghost(l.out, hbuf)
+// after a successful Close everything is written: no newline is pending after a final partial line, and a
+// final full line is not followed by one either
+//@ ensures implies(err == nil, olen(l) == old(olen(l)) + l.used && lbnl(l))
+//@ canary ensures err != nil
+
+//@ func newLineBreaker
+//@ props C46
+//@ requires lineLength == 64 && out != nil && ghost(out, hlen) == 0
+//@ fresh result
+//@ ensures result != nil && lbinv(result) && lbnl(result) && lbdata(result) == 0
